@@ -51,6 +51,9 @@ def write_replays(prop, refuted, src, cx):
             res = dict(zip(ks, out))
             for (i, c) in flat:
                 fails = res.get(key(c))
+                if fails:
+                    from .check import split_known_native
+                    fails, _k = split_known_native(prop, fails)
                 if fails and not any(str(f).startswith('CHECKER-EXCEPTION') for f in fails) and i not in outs: outs[i] = (c, fails)
         except Exception as x:
             for i in cases: err[i] = "%s: %s" % (type(x).__name__, x)
@@ -81,7 +84,9 @@ def _write_one(prop, r, src, cx, hit, tried, error):
                 corpus = native(dict(cmd='corpus', prop=prop, seed=getattr(cx, 'seed', 0), n=60 if cx.tier == 'quick' else 400))
                 out = native(dict(cmd='check', prop=prop, cases=corpus), timeout=3600)
                 h = None
+                from .check import split_known_native
                 for c, fails in zip(corpus, out):
+                    fails, _k = split_known_native(prop, fails)
                     if fails and not any(str(f).startswith('CHECKER-EXCEPTION') for f in fails):
                         h = (c, fails); break
                 _CORPUS[prop] = (len(corpus), h)
